@@ -351,13 +351,13 @@ impl TextSelection {
                         Cursor::EndAligned(cursor),
                         "an end aligned cursor must be zero or negative",
                     ))
-                } else if cursor.abs() as usize > textlen {
+                } else if cursor.unsigned_abs() > textlen {
                     Err(StamError::CursorOutOfBounds(
                         Cursor::EndAligned(cursor),
                         "TextResource::beginaligned_cursor(): end aligned cursor ends up before the beginning",
                     ))
                 } else {
-                    Ok(textlen - cursor.abs() as usize)
+                    Ok(textlen - cursor.unsigned_abs())
                 }
             }
         }
